@@ -433,7 +433,8 @@ func Run(p *Plan, ch simsync.Chooser) *Outcome {
 			out.NonTrivial = second || len(distinctTypes) > 512
 		}
 	case "C12":
-		out.NonTrivial = res.PoolGetHit > 0 && nrec >= 2
+		// a recycled object met a second call - or the library takes nothing from a sync.Pool at all (then a history of two calls is all there is to it)
+		out.NonTrivial = nrec >= 2 && (res.PoolGetHit > 0 || res.PoolGetHit+res.PoolGetNew == 0)
 	case "C11":
 		out.NonTrivial = overlap && (res.PoolCross > 0 || (cache != nil && tot.Hits > 0))
 	}
